@@ -12,6 +12,12 @@
 (*   "gap"    two words separated by two blanks: split(' ') yields an empty     *)
 (*            word in between ("raw": a token with the empty word is parsed;    *)
 (*            "tagged": Token.of_piped('') fails its field-count assertion)     *)
+(*   "ok4", "ok5"   like "ok" with 4 / 5 fields per item (w|lemma|pos|ner[|chunk]) *)
+(*   "bad2", "bad6" items of 2 / 6 fields: the tagged format knows 3, 4 or 5    *)
+(* ("ok" items have 3 fields, w|pos|ner).  With the raw format an item is a     *)
+(* word whatever it contains.  What a printed record shows of its tokens is the *)
+(* layout of the line: "xx" nothing but the word (Token.of_word), "f3" pos and  *)
+(* entity, "f4" lemma too, "f5" chunk too; missing attributes read XX.          *)
 (* What the code does is modelled, including what it arguably should not do:    *)
 (*   - main passes the argparse namespace as read_params' second positional     *)
 (*     parameter (disable_category_dictionary): the namespace is truthy, so the *)
@@ -22,55 +28,58 @@
 (* composition facts a user relies on (one record per non-blank line, in order).*)
 EXTENDS Naturals, Sequences, FiniteSets, TLC, Json
 CONSTANTS MaxLines
-Kinds == {"blank", "ok", "gap"}
+Kinds == {"blank", "ok", "gap", "ok4", "ok5", "bad2", "bad6"}
+BadTagged == {"gap", "bad2", "bad6"}                 \* lines Token.of_piped refuses
+LayoutOf(kind, fmt) == IF fmt = "raw" THEN "xx" ELSE CASE kind = "ok" -> "f3" [] kind = "ok4" -> "f4" [] kind = "ok5" -> "f5" [] OTHER -> "none"
 VARIABLES lines,      \* the whole input
           source,     \* "file" | "pipe" | "keyboard"
           infmt,      \* "raw" | "tagged"
           dictoff,    \* the --disable-category-dictionary switch
-          pc, unread, batch, cats, dict, out, iter
-vars == <<lines, source, infmt, dictoff, pc, unread, batch, cats, dict, out, iter>>
+          pc, unread, batch, cats, dict, out, iter,
+          lay         \* what the printed records show of their tokens, one layout per record
+vars == <<lines, source, infmt, dictoff, pc, unread, batch, cats, dict, out, iter, lay>>
 
 SeqsUpTo(S, n) == UNION {[1..k -> S] : k \in 0..n}
 Init == /\ lines \in SeqsUpTo(Kinds, MaxLines)
         /\ source \in {"file", "pipe", "keyboard"} /\ infmt \in {"raw", "tagged"} /\ dictoff \in BOOLEAN
-        /\ pc = "setup" /\ unread = <<>> /\ batch = <<>> /\ cats = "unset" /\ dict = "unset" /\ out = <<>> /\ iter = 0
+        /\ pc = "setup" /\ unread = <<>> /\ batch = <<>> /\ cats = "unset" /\ dict = "unset" /\ out = <<>> /\ iter = 0 /\ lay = <<>>
 
 (* set_global_language_to, get_annotator, load_model, read_params(config, args) *)
 Setup == /\ pc = "setup" /\ pc' = "read" /\ unread' = [i \in DOMAIN lines |-> i]
          /\ dict' = "none"                                         \* DictionaryNeverLoaded: `args` is truthy
-         /\ UNCHANGED <<lines, source, infmt, dictoff, batch, cats, out, iter>>
+         /\ UNCHANGED <<lines, source, infmt, dictoff, batch, cats, out, iter, lay>>
 
 NonBlank(ix) == SelectSeq(ix, LAMBDA i : lines[i] # "blank")
 (* a file or a pipe is read to its end in one go; blank lines are dropped *)
 ReadAll == /\ pc = "read" /\ source \in {"file", "pipe"}
            /\ batch' = NonBlank(unread) /\ unread' = <<>> /\ pc' = "check" /\ iter' = iter + 1
-           /\ UNCHANGED <<lines, source, infmt, dictoff, cats, dict, out>>
+           /\ UNCHANGED <<lines, source, infmt, dictoff, cats, dict, out, lay>>
 (* at a terminal one line is read per round *)
 ReadOne == /\ pc = "read" /\ source = "keyboard" /\ unread # <<>>
            /\ batch' = NonBlank(<<Head(unread)>>) /\ unread' = Tail(unread) /\ pc' = "check" /\ iter' = iter + 1
-           /\ UNCHANGED <<lines, source, infmt, dictoff, cats, dict, out>>
+           /\ UNCHANGED <<lines, source, infmt, dictoff, cats, dict, out, lay>>
 ReadEOF == /\ pc = "read" /\ source = "keyboard" /\ unread = <<>>
            /\ pc' = "eof_error"                                     \* input() raises EOFError; main does not catch it
-           /\ UNCHANGED <<lines, source, infmt, dictoff, unread, batch, cats, dict, out, iter>>
+           /\ UNCHANGED <<lines, source, infmt, dictoff, unread, batch, cats, dict, out, iter, lay>>
 (* nothing but blank lines: the loop ends *)
 Check == /\ pc = "check"
          /\ pc' = (IF batch = <<>> THEN "done" ELSE "tokenize")
-         /\ UNCHANGED <<lines, source, infmt, dictoff, unread, batch, cats, dict, out, iter>>
+         /\ UNCHANGED <<lines, source, infmt, dictoff, unread, batch, cats, dict, out, iter, lay>>
 (* "tagged": Token.of_piped on every blank-separated item; "raw": annotate_XX (Token.of_word) *)
 Tokenize == /\ pc = "tokenize"
-            /\ pc' = (IF infmt = "tagged" /\ \E i \in DOMAIN batch : lines[batch[i]] = "gap" THEN "assertion_error" ELSE "tag")
-            /\ UNCHANGED <<lines, source, infmt, dictoff, unread, batch, cats, dict, out, iter>>
+            /\ pc' = (IF infmt = "tagged" /\ \E i \in DOMAIN batch : lines[batch[i]] \in BadTagged THEN "assertion_error" ELSE "tag")
+            /\ UNCHANGED <<lines, source, infmt, dictoff, unread, batch, cats, dict, out, iter, lay>>
 (* supertagger.predict_doc; the category list is parsed on the first round only *)
 Tag == /\ pc = "tag" /\ pc' = "filter" /\ cats' = "parsed"
-       /\ UNCHANGED <<lines, source, infmt, dictoff, unread, batch, dict, out, iter>>
+       /\ UNCHANGED <<lines, source, infmt, dictoff, unread, batch, dict, out, iter, lay>>
 (* apply_category_filters is called only with a dictionary: never, see Setup *)
 Filter == /\ pc = "filter" /\ pc' = "parse"
-          /\ UNCHANGED <<lines, source, infmt, dictoff, unread, batch, cats, dict, out, iter>>
+          /\ UNCHANGED <<lines, source, infmt, dictoff, unread, batch, cats, dict, out, iter, lay>>
 (* depccg.parsing.run: one result list per sentence, in order (Batch.tla) *)
 Parse == /\ pc = "parse" /\ pc' = "print"
-         /\ UNCHANGED <<lines, source, infmt, dictoff, unread, batch, cats, dict, out, iter>>
+         /\ UNCHANGED <<lines, source, infmt, dictoff, unread, batch, cats, dict, out, iter, lay>>
 (* print_: one record per sentence; a file or pipe is done after one round, a terminal reads on *)
-Render == /\ pc = "print" /\ out' = out \o batch
+Render == /\ pc = "print" /\ out' = out \o batch /\ lay' = lay \o [i \in DOMAIN batch |-> LayoutOf(lines[batch[i]], infmt)]
          /\ pc' = (IF source = "keyboard" THEN "read" ELSE "done")
          /\ UNCHANGED <<lines, source, infmt, dictoff, unread, batch, cats, dict, iter>>
 Next == Setup \/ ReadAll \/ ReadOne \/ ReadEOF \/ Check \/ Tokenize \/ Tag \/ Filter \/ Parse \/ Render
@@ -85,11 +94,13 @@ OneRecordPerLineInOrder ==
   pc = "done" => out = (IF source = "keyboard" THEN UpToBlank(All) ELSE NonBlank(All))
 OutputIsPrefixOfInput == \A i \in DOMAIN out : out[i] = NonBlank(All)[i]          \* never reordered, never invented
 KeyboardEndsOnlyOnBlankOrEOF == (source = "keyboard" /\ pc = "done") => \E i \in DOMAIN lines : lines[i] = "blank"
-AssertionOnlyForTaggedGap == pc = "assertion_error" => infmt = "tagged" /\ \E i \in DOMAIN lines : lines[i] = "gap"
+AssertionOnlyForTaggedGap == pc = "assertion_error" => infmt = "tagged" /\ \E i \in DOMAIN lines : lines[i] \in BadTagged
+AttributesAreTheInputs == /\ Len(lay) = Len(out)
+                          /\ \A i \in DOMAIN out : lay[i] = LayoutOf(lines[out[i]], infmt) /\ lay[i] # "none"
 CategoriesParsedOnce == cats = "parsed" => iter >= 1
 DictionaryNeverLoaded == dict # "loaded"                                           \* documents the code, see header
 Terminates == <>Terminal
 (* spec -> code: every terminal state is a test vector *)
 Emit == Terminal => PrintT("VEC " \o ToJson([lines |-> lines, source |-> source, infmt |-> infmt, dictoff |-> dictoff,
-                                              pc |-> pc, out |-> out, iter |-> iter]))
+                                              pc |-> pc, out |-> out, iter |-> iter, lay |-> lay]))
 =============================================================================
